@@ -157,6 +157,9 @@ def icpt_script(rng, d, nb, big=False, fec=True, level="icpt", nstreams=1, other
         if d["k"] > 1 and rng.random() < 0.3:
             part = concrete_batch(rng, dd, lens, seq)[:rng.randrange(1, d["k"])]
             st["batches"].append({"n": d["n"], "pkts": part})
+            if level == "icpt" and rng.random() < 0.6:     # the stream is bound again with the partial batch pending
+                seq = (seq + rng.choice([len(part), d["k"], 300])) % 65536
+                st["batches"].append({"n": d["n"], "pkts": concrete_batch(rng, dd, lens, seq), "rebind": True})
         streams.append(st)
     return {"level": level, "poison": rng.random() < 0.5, "k": d["k"], "n": d["n"], "streams": streams}
 
